@@ -142,6 +142,35 @@ def to_query(mode, x):
     return Fraction(x) if mode == "q" else float(x)
 
 
+def unordered_args():
+    """Arguments that are not ordered with any number — every comparison with them is false: Python's and numpy's NaN,
+    in the spellings a caller meets (a computed NaN has the sign bit set on x86: `-nan`).  The statement's "None outside
+    [0, 1]" / "None outside the observed range" includes them: they are not members of the interval."""
+    import numpy
+
+    return [("float nan", float("nan")), ("-nan", -float("nan")), ("numpy.nan", numpy.nan), ("numpy.float64 nan", numpy.float64("nan")),
+            ("numpy.float32 nan", numpy.float32("nan")), ("inf - inf", float("inf") - float("inf"))]
+
+
+def check_unordered(D, h, res):
+    """quantile / count_at at arguments that are not numbers, on a non-empty histogram: the answer is None — not an
+    exception, not NaN.  Oracle only for the implementation (the wire has no NaN); the model's side is the pair of theorems
+    C14.quantile_nan / C14.countAt_nan about the generated guards run at a carrier with NaN.  Returns (clause, detail) or None."""
+    for name, v in unordered_args():
+        for fname, f in (("quantile", D.quantile), ("count_at", D.count_at)):
+            k = "%s branch: not a number (NaN)" % fname
+            res.branches[k] = res.branches.get(k, 0) + 1
+            try:
+                r = f(h, v)
+            except Exception as e:
+                return "raised: %s raised %s at an argument that is not a number" % (fname, type(e).__name__), {"argument": name, "error": repr(e)[:200]}
+            if r is not None:
+                where = "[0, 1]" if fname == "quantile" else "the observed range"
+                return "%s: not None outside %s" % (fname, where), {("q" if fname == "quantile" else "x"): name, "got": repr(r)[:60],
+                                                                     "unordered": True}
+    return None
+
+
 # --------------------------------------------------------------------------- oracle
 
 def left_values(lo, v0, f0, pts, flags):
@@ -349,6 +378,8 @@ def query_round(mode, D, h, case, res, reg, truth=None, every_rank=False, extra_
         res.branches[k] = res.branches.get(k, 0) + 1
     bad_c = check_count_at(mode, h, exs, cs, total, lo, hi)
     bad_q = check_quantile(mode, h, [Fraction(q) for q in qs], rs, lo, hi)
+    if bad_q is None:
+        bad_q = check_unordered(D, h, res)
     left_only = bad_c is not None and bool(bad_c[1].get("left_tail")) and bad_q is None
     bad = bad_q if (bad_c is None or (bad_c[1].get("left_tail") and bad_q is not None)) else bad_c
     if bad is None:
@@ -825,6 +856,35 @@ def build_profile(values, typ="INTEGER"):
     return df.profile.column("a")
 
 
+INT64_MIN, INT64_MAX = -(2**63), 2**63 - 1
+
+
+def build_direct(values, dtype):
+    """The column profile NumericProfiler builds when it is handed a numpy array itself: `object` (the path a nullable column
+    takes: None cells, the NaT sentinel stripped), `int64` / `float64` (the typed path: nulls are NaN)."""
+    import numpy
+    from orso.profiler.profiler import NumericProfiler
+    from orso.schema import FlatColumn
+    from orso.types import OrsoTypes
+
+    if dtype == "float64":
+        arr = numpy.array([float("nan") if v is None else float(v) for v in values], dtype="float64")
+    else:
+        arr = numpy.array(values, dtype=dtype)
+    prof = NumericProfiler(FlatColumn(name="a", type=OrsoTypes.INTEGER if dtype != "float64" else OrsoTypes.DOUBLE))
+    prof(arr)
+    return prof.profile
+
+
+def non_null_values(values, path):
+    """The non-null values of a column as the unchanged tree defines them.  On the object path (every column of a DataFrame,
+    and an object array) a cell equal to -9223372036854775808 — the NaT sentinel — is a null: it is dropped AND counted as
+    missing, so the profile is self-consistent; on the typed path it is a value like any other."""
+    if path in ("int64", "float64"):
+        return [v for v in values if v is not None]
+    return [v for v in values if v is not None and v != INT64_MIN]
+
+
 def gen_values(g):
     """Deterministic large column for `{"gen": {...}}` cases (a frame of more than one profiler batch)."""
     import random
@@ -916,22 +976,35 @@ def run_profile_case(case):
     res.items = []
     res.c13_failed = False
     values, batches = profile_parts(case)
-    nn = [v for v in values if v is not None]
+    direct = case.get("direct")
+    nn = non_null_values(values, direct)
+    build = (lambda vs, typ: build_direct(vs, direct)) if direct else build_profile
     try:
         typ = case.get("type", "INTEGER")
         fit = "gen" not in case and len(values) <= 25000
         if batches is None:
-            col = build_profile(values, typ)
+            col = build(values, typ)
         else:
-            col = build_profile(batches[0], typ)
+            col = build(batches[0], typ)
             for b in batches[1:]:
-                nxt = build_profile(b, typ)
+                nxt = build(b, typ)
                 fit = fit and fits_together(col, nxt)
                 col = col + nxt
     except Exception as e:
         res.fail = ("raised: profiling an integer column raised %s" % type(e).__name__, {"error": repr(e)[:200]})
         return res
     nonnull = col.count - col.missing
+    truth_fail = None
+    if nonnull != len(nn) or col.count != len(values):
+        # "the number of non-null values" is a fact about the data (a NaT-sentinel cell of the object path counts as a null).
+        # Reported only when the estimates are consistent with the profile's own count - missing (that clause is judged first).
+        truth_fail = ("profile: count - missing is not the number of non-null values", {"count": int(col.count), "missing": int(col.missing),
+                                                                                         "non_null_cells": len(nn), "cells": len(values)})
+    if not nn:
+        if truth_fail is None and (col.histogram or col.minimum is not None or col.maximum is not None):
+            truth_fail = ("profile: a column without values has a histogram or bounds", {"min": col.minimum, "max": col.maximum})
+        res.fail = truth_fail
+        return res
     lo, hi = min(nn), max(nn)
     extra = sorted(set(nn))[:60] if case.get("probe_distinct") else []
     probes = sorted(set([lo, hi] + extra + [p for p in case.get("probes", []) if lo <= p <= hi]))
@@ -945,16 +1018,25 @@ def run_profile_case(case):
                                                                                 "true_range": [lo, hi]})
         return res
     hist = list(col.histogram)
+    for name, v in unordered_args():
+        try:
+            r = col.estimate_values_below(v)
+        except Exception as e:
+            res.fail = ("raised: estimate_values_below raised %s at an argument that is not a number" % type(e).__name__, {"argument": name, "error": repr(e)[:200]})
+            return res
+        if r is not None:
+            res.fail = ("profile: estimate is not None outside the observed range", {"point": name, "got": repr(r)[:60], "unordered": True})
+            return res
     hard, left_fail = judge_probes(probes, below, above, nonnull, lo, hi, col.minimum, col.maximum, hist)
     mark_no_trim(fit, hard, left_fail)
-    if hard is not None:
-        res.fail = hard
+    if hard is not None or truth_fail is not None:
+        res.fail = hard or truth_fail
         return res
     res.fail = left_fail
     bins = [(v, int(f)) for v, f in hist]
     line = model_eval_line("f", bins, col.minimum, col.maximum, [float(p) for p in probes], [], int(col.count), int(col.missing))
     res.items.append(("profile", line, below, above, Fraction(nonnull), Fraction(1), probes, [], set()))
-    if batches is None and "values" in case and len(values) <= 25000 and lo < hi:
+    if batches is None and "values" in case and len(values) <= 25000 and lo < hi and not direct and all(abs(v) <= 2**53 for v in nn):
         # ONE batch: numpy.histogram is a parameter of the theorems (C14.one_batch_profile_ok) - its contract is checked here on
         # the very data, and the comprehension the profiler applies to it is run on the model (Profile.histogramOf, regenerated)
         import numpy
@@ -1357,9 +1439,15 @@ def valid_case(c):
             vs = [v for b in bs for v in b]
         else:
             vs = c.get("values")
-        if not isinstance(vs, list) or not any(v is not None for v in vs):
+        if c.get("direct") not in (None, "object", "int64", "float64") or (c.get("direct") == "int64" and any(v is None for v in vs)):
             return False
-        if not all(v is None or (isinstance(v, int) and not isinstance(v, bool) and abs(v) < 2**50) for v in vs):
+        if not isinstance(vs, list) or not vs or not (any(v is not None for v in vs) or c.get("sentinel")):
+            return False
+        # numeric limits (family profile:sentinel): the smallest / largest int64 among ordinary values
+        big = lambda v: c.get("sentinel") and v in (INT64_MIN, INT64_MAX)
+        if not all(v is None or (isinstance(v, int) and not isinstance(v, bool) and (abs(v) < 2**50 or big(v))) for v in vs):
+            return False
+        if c.get("sentinel") and not all(sentinel_ok(b, c.get("direct")) for b in (c["batches"] if "batches" in c else [vs])):
             return False
         return isinstance(c.get("probes", []), list) and all(isinstance(p, (int, float)) and not isinstance(p, bool) for p in c.get("probes", []))
     if c.get("kind", "hist") != "hist":
@@ -1640,6 +1728,56 @@ def random_profile_case(ctx):
         if p + 0.5 <= hi:
             probes.add(p + 0.5)
     return {"kind": "profile", "values": values, "probes": sorted(probes), "family": "profile:" + shape}
+
+
+def sentinel_ok(vs, direct):
+    """Columns numpy.histogram can bin at all: at this magnitude a range narrower than 50 floats makes it raise (`Too many bins
+    for data range` — the profile then does not exist; recorded in design_notes/C14.md, outside the estimators)."""
+    nn = non_null_values(vs, direct)
+    return not nn or max(nn) == min(nn) and abs(nn[0]) < 2**50 or max(nn) - min(nn) >= 2**20 or max(abs(v) for v in nn) < 2**50
+
+
+SENTINEL_BASES = [[1, 2, 3], [0], [0, 0], [5, 6, 9, 9, 30], [-7, -2], [0, 1], [-1, 0], [-3, 0, 12, 40, 40], []]
+
+
+def sentinel_cases(ctx, n_random):
+    """Numeric limits in profiled columns: the smallest int64 (the NaT sentinel the object path strips), the largest, zero; with
+    and without None; through DataFrame.profile (always the object path), NumericProfiler on an object array, and on typed
+    int64 / float64 arrays (where the smallest int64 is a value); one batch and two batches added."""
+    rng = ctx.rng
+    cols = []
+    for base in SENTINEL_BASES:
+        for extra in ([INT64_MIN], [INT64_MIN, INT64_MIN], [INT64_MAX], [INT64_MIN, INT64_MAX], [INT64_MIN, 0], [0]):
+            for nulls in (0, 1, 2):
+                col = list(base) + extra + [None] * nulls
+                cols.append(col)
+                cols.append(list(reversed(col)))
+    for _ in range(n_random):
+        col = [rng.choice([INT64_MIN, INT64_MIN, INT64_MAX, 0, None, None, rng.randint(-50, 50), rng.randint(-50, 50)]) for _ in range(rng.randint(1, 9))]
+        cols.append(col)
+    seen = set()
+    for col in cols:
+        for direct in (None, "object", "int64", "float64"):
+            if direct == "int64" and any(v is None for v in col):
+                continue
+            if direct == "float64" and INT64_MAX in col:
+                continue  # 2**63 - 1 is no float: the column would not be integer-valued
+            key = (tuple(col), direct)
+            nn = non_null_values(col, direct)
+            if key in seen or not sentinel_ok(col, direct) or (direct == "int64" and not nn):
+                continue
+            seen.add(key)
+            case = {"kind": "profile", "values": col, "sentinel": True, "probe_distinct": True, "family": "profile:sentinel:" + (direct or "frame"),
+                    "probes": [p for p in (0, 0.5, 1, 2.5, -1) if nn and min(nn) <= p <= max(nn)]}
+            if direct:
+                case["direct"] = direct
+            yield case
+            if direct is None and len(col) >= 2:
+                k = len(col) // 2
+                a, b = col[:k], col[k:]
+                if (non_null_values(a, None) or non_null_values(b, None)) and sentinel_ok(a, None) and sentinel_ok(b, None):
+                    yield {"kind": "profile", "batches": [a, b], "order": rng.choice(["ab", "ba"]), "sentinel": True, "probe_distinct": True,
+                           "probes": case["probes"], "family": "profile:sentinel:added"}
 
 
 CUT_COLUMNS = [
@@ -2295,6 +2433,12 @@ def run(ctx):
         if ctx.violations:
             break
         evaluate(ctx, tsq[i : i + 60])
+    sents = list(sentinel_cases(ctx, ctx.scale(20, 300)))
+    ctx.note("profile_sentinel_cases", len(sents))
+    for i in range(0, len(sents), 100):
+        if ctx.violations:
+            break
+        evaluate(ctx, sents[i : i + 100])
     cuts = list(cut_cases(ctx, ctx.scale(25, 400)))
     ctx.note("profile_cut_cases", len(cuts))
     for i in range(0, len(cuts), 100):
